@@ -1,38 +1,270 @@
 package sshstrict
 
 import (
+	"bytes"
+	"crypto"
+	"crypto/rand"
+	"fmt"
 	"testing"
+
+	"verif/sshref"
 )
 
-func TestBaselineProbe(t *testing.T) {
-	for _, kex := range []string{"curve25519-sha256", "ecdh-sha2-nistp256", "diffie-hellman-group14-sha256", "diffie-hellman-group-exchange-sha256", "mlkem768x25519-sha256"} {
-		g := startGoGo(kex, suite{"aes128-ctr", "hmac-sha2-256"}, 0, edit{}, true)
-		types, fwd, capt, _ := g.x.snapshot()
-		t.Logf("%s: cli=%v srv=%v stalled=%v c2s=%v s2c=%v fwd=%v cap=%d/%d", kex, g.cliErr, g.srvErr, g.stalled, typeNames(types[0]), typeNames(types[1]), fwd, len(capt[0]), len(capt[1]))
-		g.finish()
-	}
-	// a deletion that must stall
-	g := startGoGo("curve25519-sha256", suite{"aes128-ctr", "hmac-sha2-256"}, 0, edit{dir: dirS2C, op: opDelete, pos: 0}, true)
-	t.Logf("delete s2c KEXINIT: cli=%v srv=%v stalled=%v giveup=%q", g.cliErr, g.srvErr, g.stalled, g.giveUp)
-	g.finish()
-	pk, _ := kindPacket("IGNORE", []byte("x"))
-	g = startGoGo("curve25519-sha256", suite{"aes128-ctr", "hmac-sha2-256"}, 0, edit{dir: dirS2C, op: opInject, pos: 1, pkt: pk}, true)
-	t.Logf("inject: cli=%v srv=%v stalled=%v giveup=%q", g.cliErr, g.srvErr, g.stalled, g.giveUp)
-	g.finish()
-}
+// Unit tests of the harness parts themselves (not checks).
 
-func TestPeerProbe(t *testing.T) {
-	for _, role := range []string{"peer-client", "peer-server"} {
-		for _, su := range []suite{{"aes128-ctr", "hmac-sha2-256"}, {"chacha20-poly1305@openssh.com", ""}, {"aes128-gcm@openssh.com", ""}, {"aes256-ctr", "hmac-sha2-512-etm@openssh.com"}} {
-			pr := runPeer(role, "curve25519-sha256", su, injection{pos: -1})
-			t.Logf("%s %s: goErr=%v goRun=%v peerErr=%v step=%s/%s stalled=%v kexes=%d sent=%v recv=%d", role, su, pr.goErr, pr.goRunErr, pr.peerErr, pr.peerStep, pr.goStep, pr.stalled, len(pr.peer.Kexes), typeNames(pr.peer.Sent), len(pr.peer.Recv))
-			ts := pr.tap.snap()
-			t.Logf("   tap: writes=%d reads=%d nkW=%d nkR=%d readErrs=%v", len(ts.writes), len(ts.reads), ts.nkW, ts.nkR, ts.readErrs)
+func TestFramePlain(t *testing.T) {
+	rd, _ := sshref.NewReader("none", "none", sshref.Keys{})
+	for n := 1; n < 70; n++ {
+		pl := bytes.Repeat([]byte{byte(n)}, n)
+		f := framePlain(pl)
+		if len(f)%8 != 0 || f[4] < 4 {
+			t.Fatalf("payload %d: frame %d bytes, padding %d", n, len(f), f[4])
+		}
+		frame, got, err := readPlain(bytes.NewReader(f))
+		if err != nil || !bytes.Equal(got, pl) || !bytes.Equal(frame, f) {
+			t.Fatalf("payload %d: readPlain %v", n, err)
+		}
+		info, err := rd.ReadPacket(uint32(n), bytes.NewReader(f)) // the independent packet layer accepts it
+		if err != nil || !bytes.Equal(info.Payload, pl) {
+			t.Fatalf("payload %d: sshref rejects the frame: %v", n, err)
 		}
 	}
-	pk, _ := kindPacket("IGNORE", []byte("x"))
-	for pos := 0; pos < 4; pos++ {
-		pr := runPeer("peer-client", "curve25519-sha256", suite{"aes128-ctr", "hmac-sha2-256"}, injection{pos: pos, pkt: pk})
-		t.Logf("inject %d: goErr=%v peerErr=%v step=%s stalled=%v kexes=%d", pos, pr.goErr, pr.peerErr, pr.peerStep, pr.stalled, len(pr.peer.Kexes))
+}
+
+// feed sends a version line and plaintext packets through a mitm and returns
+// what arrives on the other side.
+func feed(t *testing.T, ed edit, types []byte) (forwarded []byte, after []byte) {
+	cE, cM := newDuplex("a", "ma")
+	sM, sE := newDuplex("mb", "b")
+	x := newMITM(cM, sM, ed)
+	src, dst := cE, sE
+	if ed.dir == dirS2C {
+		src, dst = sE, cE
+	}
+	src.Write([]byte("SSH-2.0-x\r\n"))
+	for _, ty := range types {
+		src.Write(framePlain([]byte{ty, 1, 2, 3}))
+	}
+	src.Write([]byte("PROTECTED"))
+	src.Close()
+	var line [11]byte
+	if _, err := dst.Read(line[:]); err != nil {
+		t.Fatal(err)
+	}
+	var all []byte
+	buf := make([]byte, 4096)
+	for {
+		n, err := dst.Read(buf)
+		all = append(all, buf[:n]...)
+		if err != nil {
+			break
+		}
+	}
+	x.stop()
+	r := bytes.NewReader(all)
+	for r.Len() > len("PROTECTED") {
+		_, pl, err := readPlain(r)
+		if err != nil {
+			t.Fatalf("forwarded stream does not parse: %v", err)
+		}
+		forwarded = append(forwarded, pl[0])
+	}
+	after = all[len(all)-r.Len():]
+	return
+}
+
+func TestMITMEdits(t *testing.T) {
+	seq := []byte{20, 30, 21}
+	for dir := 0; dir < 2; dir++ {
+		for _, c := range []struct {
+			ed   edit
+			want []byte
+		}{
+			{edit{}, []byte{20, 30, 21}},
+			{edit{dir: dir, op: opInject, pos: 0, pkt: []byte{2, 0}}, []byte{2, 20, 30, 21}},
+			{edit{dir: dir, op: opInject, pos: 1, pkt: []byte{4, 0}}, []byte{20, 4, 30, 21}},
+			{edit{dir: dir, op: opInject, pos: 2, pkt: []byte{3, 0}}, []byte{20, 30, 3, 21}},
+			{edit{dir: dir, op: opDelete, pos: 0}, []byte{30, 21}},
+			{edit{dir: dir, op: opDelete, pos: 1}, []byte{20, 21}},
+			{edit{dir: dir, op: opDelete, pos: 2}, []byte{20, 30}},
+			{edit{dir: dir, op: opDup, pos: 0}, []byte{20, 20, 30, 21}},
+			{edit{dir: dir, op: opDup, pos: 1}, []byte{20, 30, 30, 21}},
+			{edit{dir: dir, op: opSwap, pos: 0}, []byte{30, 20, 21}},
+			{edit{dir: dir, op: opSwap, pos: 1}, []byte{20, 21, 30}},
+		} {
+			got, after := feed(t, c.ed, seq)
+			if !bytes.Equal(got, c.want) || string(after) != "PROTECTED" {
+				t.Errorf("dir %d %s@%d: forwarded %v want %v, tail %q", dir, opName[c.ed.op], c.ed.pos, got, c.want, after)
+			}
+		}
+	}
+}
+
+// The wire decoder must tell a restarted from a continued sequence number
+// (and say "both" for AES-GCM, which does not use it).
+func TestDecodeWireHypotheses(t *testing.T) {
+	K := []byte{0, 0, 0, 4, 1, 2, 3, 4}
+	H := bytes.Repeat([]byte{7}, 32)
+	for _, su := range append(append([]suite(nil), quickSuites...), moreSuites...) {
+		for _, reset := range []bool{true, false} {
+			for dir := 0; dir < 2; dir++ {
+				kk := kexKeys{Hash: crypto.SHA256, K: K, H: H, SessionID: H, Cipher: [2]string{su.Cipher, su.Cipher}, MAC: [2]string{su.MAC, su.MAC}}
+				var stream bytes.Buffer
+				w, _ := sshref.NewWriter("none", "none", sshref.Keys{})
+				w.Rand = rand.Reader
+				seq := uint32(0)
+				put := func(pl []byte) {
+					if err := w.WritePacket(seq, &stream, pl, -1); err != nil {
+						t.Fatal(err)
+					}
+					seq++
+				}
+				put([]byte{20, 9, 9})
+				put([]byte{30, 9})
+				for round := 0; round < 3; round++ {
+					put([]byte{21})
+					keys, err := sshref.DeriveKeys(kk.Hash, kk.K, kk.H, kk.SessionID, su.Cipher, su.MAC, dir == dirC2S)
+					if err != nil {
+						t.Fatal(err)
+					}
+					if w, err = sshref.NewWriter(su.Cipher, su.MAC, keys); err != nil {
+						t.Fatal(err)
+					}
+					w.Rand = rand.Reader
+					if reset {
+						seq = 0
+					}
+					put([]byte{5, 1, 2, 3})
+					put([]byte{20, 1})
+					put([]byte{30, 1})
+				}
+				res := decodeWire(stream.Bytes(), dir, []kexKeys{kk, kk, kk})
+				want := "cont"
+				if reset {
+					want = "zero"
+				}
+				if !seqMatters(su.Cipher) {
+					want = "both"
+				}
+				if res.Err != nil || len(res.Follows) != 3 || len(res.Pkts) != 14 {
+					t.Fatalf("%s reset=%v dir=%d: err %v, %d follows, %d packets", su, reset, dir, res.Err, len(res.Follows), len(res.Pkts))
+				}
+				for _, f := range res.Follows {
+					if f.Verdict != want {
+						t.Errorf("%s reset=%v dir=%d: NEWKEYS #%d verdict %s want %s (%s / %s)", su, reset, dir, f.Index, f.Verdict, want, f.ErrZero, f.ErrCont)
+					}
+				}
+				// a capture cut in the middle of the packet after NEWKEYS is "absent", never a verdict
+				b := stream.Bytes()
+				cut := decodeWire(b[:len(b)-10], dir, []kexKeys{kk, kk, kk})
+				if cut.Err != nil {
+					t.Errorf("%s: truncated capture gives error %v", su, cut.Err)
+				}
+			}
+		}
+	}
+}
+
+// The adapted Peer copy still interoperates with the package it was copied
+// from, in both roles, with and without strict KEX, including re-exchanges.
+func TestPeerCopyAgainstSshref(t *testing.T) {
+	for i, kex := range []string{"curve25519-sha256", "ecdh-sha2-nistp256", "diffie-hellman-group14-sha256"} {
+		for _, noStrict := range []bool{false, true} {
+			for _, copyIsServer := range []bool{false, true} {
+				su := quickSuites[i%len(quickSuites)]
+				a, b := newDuplex("a", "b")
+				errc := make(chan error, 1)
+				var cl interface {
+					Handshake() error
+					RequestAuthNone(string) (bool, error)
+					Rekey() error
+					Exec(string, []byte) ([]byte, uint32, error)
+				}
+				strictSeen := false
+				macs := []string(nil)
+				if su.MAC != "" {
+					macs = []string{su.MAC}
+				}
+				if copyIsServer {
+					sv := NewPeer(b, PeerConfig{Server: true, HostKey: hostKeyPriv(), Kex: []string{kex}, Ciphers: []string{su.Cipher}, MACs: macs, NoStrict: noStrict})
+					go func() {
+						if err := sv.Handshake(); err != nil {
+							errc <- err
+							return
+						}
+						strictSeen = sv.Kexes[0].Strict
+						if _, _, err := sv.AcceptAuth(); err != nil {
+							errc <- err
+							return
+						}
+						_, err := sv.ServeExec(peerHandler)
+						errc <- err
+					}()
+					cl = sshref.NewPeer(a, sshref.PeerConfig{})
+				} else {
+					sv := sshref.NewPeer(b, sshref.PeerConfig{Server: true, HostKey: hostKeyPriv(), Kex: []string{kex}, Ciphers: []string{su.Cipher}, MACs: macs})
+					go func() {
+						if err := sv.Handshake(); err != nil {
+							errc <- err
+							return
+						}
+						strictSeen = sv.Kexes[0].Strict
+						if _, _, err := sv.AcceptAuth(); err != nil {
+							errc <- err
+							return
+						}
+						_, err := sv.ServeExec(peerHandler)
+						errc <- err
+					}()
+					cl = NewPeer(a, PeerConfig{NoStrict: noStrict})
+				}
+				name := fmt.Sprintf("%s %s noStrict=%v copyIsServer=%v", kex, su, noStrict, copyIsServer)
+				if err := cl.Handshake(); err != nil {
+					t.Fatalf("%s: %v", name, err)
+				}
+				if ok, err := cl.RequestAuthNone("u"); err != nil || !ok {
+					t.Fatalf("%s: auth %v %v", name, ok, err)
+				}
+				if err := cl.Rekey(); err != nil {
+					t.Fatalf("%s: rekey %v", name, err)
+				}
+				out, st, err := cl.Exec("small", nil)
+				if err != nil || checkOut("small", out, st) != nil {
+					t.Fatalf("%s: exec %v", name, err)
+				}
+				a.Close()
+				if err := <-errc; err != nil {
+					t.Fatalf("%s: server %v", name, err)
+				}
+				if strictSeen == noStrict {
+					t.Fatalf("%s: strict negotiated = %v", name, strictSeen)
+				}
+			}
+		}
+	}
+}
+
+// Smoke tests of the two session drivers against the unchanged library.
+func TestDriversSmoke(t *testing.T) {
+	for _, f := range allFamilies {
+		g := startGoGo(f.Name, quickSuites[0], 0, edit{}, true)
+		types, _, _, _ := g.x.snapshot()
+		if g.cliErr != nil || g.srvErr != nil || g.stalled || len(types[0]) != f.L || len(types[1]) != f.L {
+			t.Errorf("%s: %v %v stalled=%v %v %v", f.Name, g.cliErr, g.srvErr, g.stalled, typeNames(types[0]), typeNames(types[1]))
+		}
+		g.finish()
+	}
+	g := startGoGo("curve25519-sha256", quickSuites[0], 0, edit{dir: dirS2C, op: opDelete, pos: 0}, true)
+	if !g.stalled || g.cliErr == nil || g.srvErr == nil {
+		t.Errorf("deleting the server's KEXINIT: stalled=%v %v %v", g.stalled, g.cliErr, g.srvErr)
+	}
+	g.finish()
+	for _, role := range []string{"peer-client", "peer-server"} {
+		for _, su := range quickSuites {
+			pr := runPeer(role, "curve25519-sha256", su, false, injection{pos: -1})
+			if pr.goErr != nil || pr.goRunErr != nil || pr.peerErr != nil || pr.stalled || len(pr.peer.Kexes) != 3 || pr.peer.Kexes[0].Strict {
+				t.Errorf("%s %s: go %v/%v peer %v at %s, stalled %v, %d exchanges", role, su, pr.goErr, pr.goRunErr, pr.peerErr, pr.peerStep, pr.stalled, len(pr.peer.Kexes))
+			}
+		}
 	}
 }
